@@ -248,3 +248,9 @@ def msb_end_sym(eng, b, i):
     eng.assume(z3.Implies(A[it] < 128, t == it + 1))
     eng.assume(z3.Implies(A[it] >= 128, t == msb_end_f(A, it + 1)))
     return VInt(t)
+
+
+@spec("set_field", None, "harness helper: assign a (ghost) field of an object")
+def set_field_sym(eng, obj, name, value):
+    eng.set_attr(obj, name.s, value, None)
+    return NONE
